@@ -1,33 +1,34 @@
 (* C05 Hierarchical segment/record structure is matched greedily and completely.
-   Statements only; proofs in Proofs/Hier{Base,Sim,Main,Inst}.v.
+   Statements only; proofs in Proofs/Hier{Base,Sim,Main,Inst,Term}.v.
 
    Model/Hier.v      hstep / edi_step: the explicit-stack machines of hierarchyReader.go and
                      edi/reader.go; flat_leaf / edi_leaf: the leaf matchers.
    Model/HierSpec.v  spec: the documented recursive greedy, non-backtracking matcher. *)
 From Coq Require Import List Arith Bool.
 Import ListNotations.
-From OV Require Import Model.Hier Model.HierSpec Proofs.HierBase Proofs.HierSim Proofs.HierMain Proofs.HierInst.
+From OV Require Import Model.Hier Model.HierSpec Proofs.HierBase Proofs.HierSim Proofs.HierMain Proofs.HierInst Proofs.HierTerm.
 
-(* FULL STATEMENT (machine_eq_spec):
-     forall ds us, Forall (WF try_leaf) ds -> count_tgts ds <= 1 ->
-       run (hstep try_leaf) (run_fuel ds us) (init ds us) = spec try_leaf ds us.
-   PROVED below as machine_eq_spec_partial: the same equation for EVERY fuel with which the run
-   reaches a terminal result (so: the machine can never produce anything but the specification's
-   deliveries, subtrees and terminal class).  MISSING: hier_terminates, i.e. that
-   run_fuel ds us = (decls_size ds + 3) * (length us + 2) * 3 + 8 iterations always reach a terminal
-   result; it is checked on every correspondence case (an OutOfFuel would be a mismatch) and swept
-   over a small scope in hier_terminates_small_scope. *)
+(* run_fuel ds us = 2 * ((N * units + N) * (B + 1) + B) + 1 loop iterations, N = size of the
+   hierarchy + 2, B = N * N + N. *)
 Section Generic.
   (* any leaf matcher; WF asks of the leaves in the hierarchy that a match takes at least one and
      at most all of the remaining units (leaf_sound), of groups that they have children, min <= max,
      and max >= 1 *)
   Variable try_leaf : leaf -> list unt -> option nat.
 
-  Theorem machine_eq_spec_partial : forall ds us fuel,
+  (* the machine of hierarchyReader.go IS the documented greedy matcher: same deliveries in order,
+     same subtrees, same terminal result -- for every well-formed hierarchy and every unit sequence *)
+  Theorem machine_eq_spec : forall ds us,
     Forall (WF try_leaf) ds -> count_tgts ds <= 1 ->
-    snd (run (hstep try_leaf) fuel (init ds us)) <> TOutOfFuel ->
-    run (hstep try_leaf) fuel (init ds us) = spec try_leaf ds us.
-  Proof. exact (machine_eq_spec_run try_leaf). Qed.
+    run (hstep try_leaf) (run_fuel ds us) (init ds us) = spec try_leaf ds us.
+  Proof. exact (machine_eq_spec_full try_leaf). Qed.
+
+  (* every Read returns: the whole run reaches its terminal result within run_fuel iterations
+     (every group instance consumes a unit through its first record; between two matches the
+     position only moves forward through the declarations) *)
+  Theorem hier_terminates : forall ds us, Forall (WF try_leaf) ds ->
+    snd (run (hstep try_leaf) (run_fuel ds us) (init ds us)) <> TOutOfFuel.
+  Proof. exact (hier_terminates try_leaf). Qed.
 
   (* the specification's own occurrence-loop fuel (length us + 1 per loop) always suffices *)
   Theorem spec_fuel_enough : forall ds us,
@@ -36,11 +37,16 @@ Section Generic.
 
   (* EDI: same statement under the guard no_root_repeat (the unit left over when the declared
      top-level sequence has completed does not start the first top-level declaration again) *)
-  Theorem edi_eq_spec_nested_partial : forall ds us fuel,
+  Theorem edi_eq_spec_nested : forall ds us,
     Forall (WF try_leaf) ds -> count_tgts ds <= 1 -> no_root_repeat try_leaf ds us ->
-    snd (run (edi_step try_leaf) fuel (init ds us)) <> TOutOfFuel ->
-    run (edi_step try_leaf) fuel (init ds us) = spec try_leaf ds us.
-  Proof. exact (edi_eq_spec_run try_leaf). Qed.
+    run (edi_step try_leaf) (run_fuel ds us) (init ds us) = spec try_leaf ds us.
+  Proof. exact (edi_eq_spec_full try_leaf). Qed.
+
+  (* the EDI machine terminates within the same bound, guard or not (also when the root group is
+     instantiated again: that takes a unit each time) *)
+  Theorem edi_terminates : forall ds us, Forall (WF try_leaf) ds ->
+    snd (run (edi_step try_leaf) (run_fuel ds us) (init ds us)) <> TOutOfFuel.
+  Proof. exact (edi_terminates try_leaf). Qed.
 
   (* units are consumed strictly left to right, none twice: in every state reachable from st0
      (through any number of loop iterations and Read/Release boundaries) the unprocessed units
@@ -64,21 +70,15 @@ End Generic.
 (* the csv2/fixedlength2 matchers (rows-based, header/footer with read-ahead) and the EDI name
    matcher satisfy the hypothesis on leaves; hierarchies that pass validation (decl_okb) and have
    max >= 1 (max_posb) are well-formed *)
-Theorem flat_machine_eq_spec_partial : forall ds us fuel,
+Theorem flat_machine_eq_spec : forall ds us,
   forallb wfb ds = true -> count_tgts ds <= 1 ->
-  snd (run (hstep flat_leaf) fuel (init ds us)) <> TOutOfFuel ->
-  run (hstep flat_leaf) fuel (init ds us) = spec flat_leaf ds us.
-Proof.
-  intros ds us fuel H. apply (machine_eq_spec_run flat_leaf). apply wfb_Forall_flat. exact H.
-Qed.
+  run_kind KHier ds us = spec_kind KHier ds us.
+Proof. exact flat_machine_eq_spec_full. Qed.
 
-Theorem edi_machine_eq_spec_nested_partial : forall ds us fuel,
+Theorem edi_machine_eq_spec_nested : forall ds us,
   forallb wfb ds = true -> count_tgts ds <= 1 -> no_root_repeat edi_leaf ds us ->
-  snd (run (edi_step edi_leaf) fuel (init ds us)) <> TOutOfFuel ->
-  run (edi_step edi_leaf) fuel (init ds us) = spec edi_leaf ds us.
-Proof.
-  intros ds us fuel H. apply (edi_eq_spec_run edi_leaf). apply wfb_Forall_edi. exact H.
-Qed.
+  run_kind KEdi ds us = spec_kind KEdi ds us.
+Proof. exact edi_machine_eq_spec_full. Qed.
 
 (* F14 (known finding): without the guard the EDI statement is false.  Declarations A (target,
    max 1), Z (max 1), units A Z A Z: the machine delivers both A and ends with EOF, the greedy
@@ -101,17 +101,6 @@ Proof.
   exists [D 100 false true 0 (Some 0) (LName 1) []], [U 1 1].
   vm_compute. repeat split; discriminate.
 Qed.
-
-(* hier_terminates over a small scope (a finite sweep, not the general statement): every
-   hierarchy of the shapes {d}, {d d}, {d[d]}, {g[d]} with min in {0,1,2}, max in {1,2,unbounded},
-   names in {1,2}, and every word of length <= 3 over {1,2,24} reaches a terminal result within
-   run_fuel iterations, on both machines *)
-Theorem hier_terminates_small_scope :
-  forallb (fun ds => forallb (fun us =>
-      negb (match snd (run_kind KHier ds us) with TOutOfFuel => true | _ => false end) &&
-      negb (match snd (run_kind KEdi ds us) with TOutOfFuel => true | _ => false end))
-    small_words) small_hiers = true.
-Proof. vm_compute. reflexivity. Qed.
 
 (* ---- non-vacuity ---------------------------------------------------------------------------------- *)
 (* group G(target, 0..unbounded)[A(1..1), B(0..2)] then Z(1..1); word A B B A B Z: two G instances
